@@ -567,7 +567,12 @@ let check_state inp obs0 =
         (match tok.[0], f with
          | 'p', [_; ky; v] -> ([Put (nidx, bytes_of_hex ky, bytes_of_hex v)], idx, -1)
          | 'd', [_; ky] -> ([Del (nidx, bytes_of_hex ky)], idx, -1)
-         | 'c', [_; p] -> ([Clear (nidx, bytes_of_hex p)], idx, -1)
+         | 'c', [_; p] ->
+           (* TrieState.ClearPrefix refuses a prefix that is part of, or contains, ":child_storage:"
+              (repo commit be3ddb0ed): nothing is deleted *)
+           let pb = bytes_of_hex p and cs = bytes_of_string ":child_storage:" in
+           let rec pre a b = (match a, b with [], _ -> true | x :: a', y :: b' -> x = y && pre a' b' | _ :: _, [] -> false) in
+           if pre pb cs || pre cs pb then ([], idx, -1) else ([Clear (nidx, pb)], idx, -1)
          | 'v', [_; v] -> ([SetVer (nidx, v = "1")], -1, -1)
          | 'S', [_] ->
            let root = root_of st idx in
@@ -638,4 +643,62 @@ let check inp obs =
   else if has_child_ops inp then check_kids inp obs
   else check_main inp obs
 
-let () = run_driver check
+(* ---------- vm_compute cross-check (coq/C03/VmCheck.v) ----------
+   A plain fork history (no child tries, not the `state` harness, copy-on-write contract respected,
+   no panic) is rendered as the Gallina term  vm_replay blake2b_256 fd fg true <init views> <steps>
+   <expected records>  from the IMPLEMENTATION's observations ("=" becomes None: unchanged); Coq
+   recomputes the model's views after every step with its own evaluator and compares. *)
+let coq_nat i = string_of_int i ^ "%nat"
+let coq_bool b = if b then "true" else "false"
+let coq_list l = "[" ^ String.concat "; " l ^ "]"
+let coq_step (s : xstep) : string =
+  let i n = coq_nat (int_of_nat n) in
+  match s with
+  | Core (Snap a) -> Printf.sprintf "Core (Snap %s)" (i a)
+  | Core (Put (a, k, v)) -> Printf.sprintf "Core (Put %s %s %s)" (i a) (coq_bytes k) (coq_bytes v)
+  | Core (Del (a, k)) -> Printf.sprintf "Core (Del %s %s)" (i a) (coq_bytes k)
+  | Core (Clear (a, k)) -> Printf.sprintf "Core (Clear %s %s)" (i a) (coq_bytes k)
+  | Core (SetVer (a, v)) -> Printf.sprintf "Core (SetVer %s %s)" (i a) (coq_bool v)
+  | Core (Commit a) -> Printf.sprintf "Core (Commit %s)" (i a)
+  | Core (HashOp a) -> Printf.sprintf "Core (HashOp %s)" (i a)
+  | ClearLimit (a, p, l) -> Printf.sprintf "ClearLimit %s %s %s" (i a) (coq_bytes p) (coq_n l)
+
+let coq_view (o : string) : string option =
+  match String.index_opt o '#' with
+  | None -> None
+  | Some p ->
+    let h = String.sub o 0 p and e = String.sub o (p + 1) (String.length o - p - 1) in
+    let ents = if e = "." then [] else
+      List.map (fun kv -> match String.split_on_char ':' kv with
+        | [k; v] -> Printf.sprintf "(%s, %s)" (coq_bytes (bytes_of_hex k)) (coq_bytes (bytes_of_hex v))
+        | _ -> fail "C03: bad entry %s" kv) (String.split_on_char ',' e) in
+    Some (Printf.sprintf "(%s, %s)" (coq_bytes (bytes_of_hex h)) (coq_list ents))
+
+let coq inp obs0 =
+  if (String.length inp >= 5 && String.sub inp 0 5 = "state") || has_child_ops inp then None else
+  let fd, fg, obs = split_probe obs0 in
+  let toks = split_ws inp in
+  if toks = [] || List.hd toks = "U" then None else
+  let steps = List.map parse_step toks in
+  if not (frozen_parents (core_steps steps)) then None else
+  let recs = split_ws obs in
+  if List.length recs <> List.length steps + 1 then None else
+  try
+    let view o = (match coq_view o with Some v -> v | None -> raise Exit) in
+    let init = (match String.split_on_char '/' (List.hd recs) with
+      | "init" :: o -> coq_list (List.map view o) | _ -> raise Exit) in
+    let exp = List.map (fun r ->
+      match String.split_on_char '/' r with
+      | res :: o ->
+        let ex = (match String.split_on_char ':' res with
+          | ["ok"] -> "None"
+          | ["ok"; d; a] -> Printf.sprintf "Some (%s, %s)" (coq_n (n_of_hex d)) (coq_bool (a = "1"))
+          | _ -> raise Exit) in
+        Printf.sprintf "(%s, %s)" ex
+          (coq_list (List.map (fun x -> if x = "=" then "None" else "Some " ^ view x) o))
+      | [] -> raise Exit) (List.tl recs) in
+    Some (Printf.sprintf "vm_replay blake2b_256 %s %s true %s %s %s" (coq_bool fd) (coq_bool fg) init
+            (coq_list (List.map coq_step steps)) (coq_list exp))
+  with Exit -> None
+
+let () = run_driver ~coq check
